@@ -277,7 +277,7 @@ ROUND6 = {
  "C12": ("", "Round 6: whether a message is cut at the end of block zero does not depend on where the block ends (R12.2 <- C02 R2.9)."),
  "C13": ("", "Round 6: the zone of the datetime field never derives from --tz-offset (R13.17); prepend zone and format reach the printers under their own parameter (R13.16); the escape table of --separator is injective and has C's values (R13.18)."),
  "C14": ("; reachability through thread-local initialisers and clap's derive", "Round 6: a bare date that is built directly becomes midnight in the --tz-offset zone (R14.2 clause); the start instant is captured before the first read of standard input (R14.14); the range-checked terms of a relative offset are added with checked arithmetic (R14.15)."),
- "C16": ("", "Round 6: the name of a tar member that is classified comes from the archive entry alone (R16.13)."),
+ "C16": ("", "Round 6: the name of a tar member that is classified comes from the archive entry alone (R16.13). Round 7: a constant length limit on the whole member path admits every path of up to PATH_MAX-1 bytes (R16.14, a lower bound)."),
  "C17": ("", "Round 6: the window search of the streaming stage runs once per call and bisects plain files (R17.9, with the lift of C03 R3.3)."),
  "C18": ("", "Round 6: outside the signal handler the temp-file list only grows - no positional removal (R18.9)."),
  "C19": ("; decoding of the const-evaluated format templates", "Round 6: a summary label that names a counter is followed by the value of that counter (R19.13)."),
